@@ -2,6 +2,7 @@ package transcode
 
 import (
 	"fmt"
+	"math"
 	"strings"
 	"sync"
 
@@ -46,6 +47,11 @@ func deepTypes() {
 			tMsg   = descriptorpb.FieldDescriptorProto_TYPE_MESSAGE
 			tBytes = descriptorpb.FieldDescriptorProto_TYPE_BYTES
 			tI32   = descriptorpb.FieldDescriptorProto_TYPE_INT32
+			tI64   = descriptorpb.FieldDescriptorProto_TYPE_INT64
+			tS64   = descriptorpb.FieldDescriptorProto_TYPE_SINT64
+			tU32   = descriptorpb.FieldDescriptorProto_TYPE_UINT32
+			tF64   = descriptorpb.FieldDescriptorProto_TYPE_FIXED64
+			tF32   = descriptorpb.FieldDescriptorProto_TYPE_FIXED32
 		)
 		tr := true
 		fdp := &descriptorpb.FileDescriptorProto{
@@ -54,6 +60,14 @@ func deepTypes() {
 			MessageType: []*descriptorpb.DescriptorProto{
 				{Name: sp("Node"), Field: []*descriptorpb.FieldDescriptorProto{
 					fld("child", 1, tMsg, ".vf.transcode.Node", false), fld("v", 2, tStr, "", false), fld("kids", 3, tMsg, ".vf.transcode.Node", true)}},
+				// wire-byte alphabet types: field 1 / field 4 of kinds whose
+				// encodings can consist of arbitrary repeated bytes
+				{Name: sp("WireStr"), Field: []*descriptorpb.FieldDescriptorProto{fld("f1", 1, tStr, "", false), fld("f4", 4, tI64, "", false)}},
+				{Name: sp("WireBytes"), Field: []*descriptorpb.FieldDescriptorProto{fld("f1", 1, tBytes, "", false), fld("f4", 4, tS64, "", false)}},
+				{Name: sp("WireFix64"), Field: []*descriptorpb.FieldDescriptorProto{fld("f1", 1, tF64, "", false), fld("f4", 4, tU32, "", false)}},
+				{Name: sp("WireFix32"), Field: []*descriptorpb.FieldDescriptorProto{fld("f1", 1, tF32, "", false), fld("f4", 4, tI32, "", false)}},
+				{Name: sp("WireHolder"), Field: []*descriptorpb.FieldDescriptorProto{fld("id", 1, tStr, "", false), fld("ws", 2, tMsg, ".vf.transcode.WireStr", false),
+					fld("wb", 3, tMsg, ".vf.transcode.WireBytes", false), fld("wf", 4, tMsg, ".vf.transcode.WireFix64", false)}},
 				{Name: sp("Deep"), Field: []*descriptorpb.FieldDescriptorProto{
 					fld("id", 1, tStr, "", false), fld("root", 2, tMsg, ".vf.transcode.Node", false),
 					fld("value", 3, tMsg, ".google.protobuf.Value", false), fld("st", 4, tMsg, ".google.protobuf.Struct", false),
@@ -79,6 +93,15 @@ func deepRules() []RuleSpec {
 		{ID: "deep:body-star", In: "vf.transcode.Deep", Out: "vf.Rsp", Verb: "POST", Tmpl: "/dp/all", Body: "*"},
 		{ID: "deep:var+body-root", In: "vf.transcode.Deep", Out: "vf.Rsp", Verb: "PUT", Tmpl: "/dq/{id}", Body: "root"},
 		{ID: "deep:complex-body-star", In: "larking.testpb.ComplexRequest", Out: "vf.Rsp", Verb: "POST", Tmpl: "/dc/all", Body: "*"},
+		{ID: "wire:str", In: "vf.transcode.WireStr", Out: "vf.Rsp", Verb: "POST", Tmpl: "/wb/str", Body: "*"},
+		{ID: "wire:bytes", In: "vf.transcode.WireBytes", Out: "vf.Rsp", Verb: "POST", Tmpl: "/wb/bytes", Body: "*"},
+		{ID: "wire:fix64", In: "vf.transcode.WireFix64", Out: "vf.Rsp", Verb: "POST", Tmpl: "/wb/fix64", Body: "*"},
+		{ID: "wire:fix32", In: "vf.transcode.WireFix32", Out: "vf.Rsp", Verb: "POST", Tmpl: "/wb/fix32", Body: "*"},
+		{ID: "wire:holder-ws", In: "vf.transcode.WireHolder", Out: "vf.Rsp", Verb: "PUT", Tmpl: "/wh/{id}/ws", Body: "ws"},
+		{ID: "wire:holder-wb", In: "vf.transcode.WireHolder", Out: "vf.Rsp", Verb: "PUT", Tmpl: "/wh/{id}/wb", Body: "wb"},
+		{ID: "wire:holder-wf", In: "vf.transcode.WireHolder", Out: "vf.Rsp", Verb: "PUT", Tmpl: "/wh/{id}/wf", Body: "wf"},
+		{ID: "wire:complex", In: "larking.testpb.ComplexRequest", Out: "vf.Rsp", Verb: "POST", Tmpl: "/wb/complex", Body: "*"},
+		{ID: "wire:message", In: "larking.testpb.Message", Out: "vf.Rsp", Verb: "POST", Tmpl: "/wb/message", Body: "*"},
 	}
 }
 
@@ -202,6 +225,150 @@ var largeShapes = []struct {
 	}},
 }
 
+// ------------------------------------------------------------ wire bytes
+
+// wireBytes are the byte values used to fill field values: the four JSON
+// white-space bytes, NUL, DEL, 0xff and bytes that look like JSON syntax.
+var wireBytes = []byte{0x20, 0x09, 0x0a, 0x0d, 0x00, 0x7f, 0xff, '{', '"', 0x01, 0x80}
+
+func rep8(b byte, n int) uint64 {
+	var v uint64
+	for i := 0; i < n; i++ {
+		v = v<<8 | uint64(b)
+	}
+	return v
+}
+
+// bodyAlphabet classifies the wire bytes of a body.
+func bodyAlphabet(b []byte) string {
+	if len(b) == 0 {
+		return "empty"
+	}
+	blank, same := true, true
+	for _, c := range b {
+		if c != 0x20 && c != 0x09 && c != 0x0a && c != 0x0d {
+			blank = false
+		}
+		if c != b[0] {
+			same = false
+		}
+	}
+	switch {
+	case blank:
+		return "only-json-whitespace-bytes"
+	case same:
+		return "one-repeated-byte"
+	}
+	return "mixed"
+}
+
+// setByte fills field name of m with a value whose encoding repeats byte c
+// (n times for strings / bytes). ok is false when the kind cannot hold it.
+func setByte(m protoreflect.Message, name string, c byte, n int) bool {
+	fd := m.Descriptor().Fields().ByName(protoreflect.Name(name))
+	if fd == nil {
+		return false
+	}
+	switch fd.Kind() {
+	case protoreflect.StringKind:
+		if c >= 0x80 {
+			return false
+		}
+		m.Set(fd, protoreflect.ValueOfString(strings.Repeat(string(rune(c)), n)))
+	case protoreflect.BytesKind:
+		m.Set(fd, protoreflect.ValueOfBytes([]byte(strings.Repeat(string([]byte{c}), n))))
+	case protoreflect.Fixed64Kind:
+		m.Set(fd, protoreflect.ValueOfUint64(rep8(c, 8)))
+	case protoreflect.Fixed32Kind:
+		m.Set(fd, protoreflect.ValueOfUint32(uint32(rep8(c, 4))))
+	case protoreflect.DoubleKind:
+		f := math.Float64frombits(rep8(c, 8))
+		if math.IsNaN(f) || math.IsInf(f, 0) {
+			return false
+		}
+		m.Set(fd, protoreflect.ValueOfFloat64(f))
+	case protoreflect.Int64Kind:
+		if c >= 0x80 {
+			return false
+		}
+		m.Set(fd, protoreflect.ValueOfInt64(int64(c))) // one-byte varint c
+	case protoreflect.Int32Kind:
+		if c >= 0x80 {
+			return false
+		}
+		m.Set(fd, protoreflect.ValueOfInt32(int32(c)))
+	case protoreflect.Uint32Kind:
+		if c >= 0x80 {
+			return false
+		}
+		m.Set(fd, protoreflect.ValueOfUint32(uint32(c)))
+	case protoreflect.Sint64Kind:
+		if c >= 0x80 {
+			return false
+		}
+		// zigzag: the varint byte is c
+		z := uint64(c)
+		m.Set(fd, protoreflect.ValueOfInt64(int64(z>>1)^-int64(z&1)))
+	default:
+		return false
+	}
+	return true
+}
+
+// runWire: protobuf (and JSON) bodies whose field values are made of one
+// repeated byte, for field 1 (string / bytes / fixed64 / fixed32 / double)
+// and field 4 (varints) - incl. bodies consisting only of JSON white space.
+func runWire(r *mon.Run, g *gen, e *env, plans map[string]*plan, run func(p *plan, M proto.Message, enc bodyEnc, class string)) {
+	type target struct {
+		rule   string
+		f1, f4 string
+		sub    string // body field of the holder message
+	}
+	targets := []target{
+		{"wire:str", "f1", "f4", ""}, {"wire:bytes", "f1", "f4", ""}, {"wire:fix64", "f1", "f4", ""}, {"wire:fix32", "f1", "f4", ""},
+		{"wire:holder-ws", "f1", "f4", "ws"}, {"wire:holder-wb", "f1", "f4", "wb"}, {"wire:holder-wf", "f1", "f4", "wf"},
+		{"wire:complex", "double_value", "int64_value", ""}, {"wire:message", "message_id", "", ""},
+	}
+	encs := []bodyEnc{{ctype: "application/protobuf"}, {ctype: "application/octet-stream"}, {ctype: "application/protobuf", gzip: true}, {ctype: "application/json"}}
+	lens := []int{1, 9, 10, 13, 32}
+	for _, tg := range targets {
+		p := plans[tg.rule]
+		for ci, c := range wireBytes {
+			for _, which := range []string{"f1", "f4", "both"} {
+				for li, n := range lens {
+					if which == "f4" && li > 0 {
+						continue
+					}
+					M := vschema.NewMsg(p.in)
+					body := M.ProtoReflect()
+					if tg.sub != "" {
+						body = body.Mutable(body.Descriptor().Fields().ByName(protoreflect.Name(tg.sub))).Message()
+					}
+					ok := true
+					if which != "f4" {
+						ok = ok && setByte(body, tg.f1, c, n)
+					}
+					if which != "f1" {
+						ok = ok && tg.f4 != "" && setByte(body, tg.f4, c, n)
+					}
+					if !ok {
+						continue
+					}
+					wireB, _ := proto.Marshal(body.Interface())
+					alpha := bodyAlphabet(wireB)
+					for ei, enc := range encs {
+						if !r.Thorough() && alpha == "mixed" && (ci+li+ei)%3 != 0 {
+							continue
+						}
+						run(p, cloneMsg(M), enc, "wire-bytes:"+alpha+":"+codecFamily(enc))
+						r.Count("wire_byte_cases_"+alpha, 1)
+					}
+				}
+			}
+		}
+	}
+}
+
 var deepEncs = []bodyEnc{{ctype: "application/json"}, {ctype: "application/protobuf"}, {ctype: "application/json", gzip: true}, {ctype: "application/octet-stream", gzip: true}}
 
 func codecFamily(enc bodyEnc) string {
@@ -259,6 +426,7 @@ func runDeep(r *mon.Run, g *gen) {
 			}
 		}
 	}
+	runWire(r, g, e, plans, run)
 	p := plans["deep:body-star"]
 	for _, sh := range largeShapes {
 		for si, n := range sh.sizes {
